@@ -497,7 +497,10 @@ def iterate_unordered(I, o):
 
 def make_set(I, elts):
     if any(isinstance(x, SYM) for x in elts):
-        elts = [concretize(I, x) for x in elts]
+        out = set()
+        for x in elts:
+            out.add(set_elem(I, out, x) if isinstance(x, SYM) else x)
+        return out
     return I.native(set, elts)
 
 
@@ -1642,14 +1645,41 @@ def _dict_update(I, d, args, kwargs):
     return I.native(d.update, *args, **kwargs)
 
 
+def set_elem(I, s, k):
+    """resolve a symbolic element against a set: an existing member with equal text, or a new SymKey member"""
+    tp = pytype(k)
+    mem = [x for x in s if isinstance(x, tp) and not isinstance(x, SymKey)]
+    smem = [x for x in s if isinstance(x, SymKey) and pytype(x.s) is tp]
+    conds = [bterm(I.eq(k, x)) for x in mem] + [bterm(I.eq(k, x.s)) for x in smem]
+    none = Not(Or(*conds)) if conds else True
+    j = I.choose_feasible(conds + [none])
+    if j < len(mem):
+        return mem[j]
+    if j < len(mem) + len(smem):
+        return smem[j - len(mem)]
+    return SymKey(k)
+
+
 def _set_method_factory(name):
     def m(I, s, args, kwargs):
         new = []
         for a in args:
             if isinstance(a, SYM):
-                new.append(concretize(I, a))
+                if name in ("add", "discard", "remove", "__contains__"):
+                    new.append(set_elem(I, s, a))
+                else:
+                    new.append(concretize(I, a))
             elif isinstance(a, (list, tuple)) and contains_sym(a, depth=1):
-                new.append([concretize(I, x) for x in a])
+                if name in ("update", "union"):
+                    tmp = set(s)
+                    elems = []
+                    for x in a:
+                        e = set_elem(I, tmp, x) if isinstance(x, SYM) else x
+                        tmp.add(e)
+                        elems.append(e)
+                    new.append(elems)
+                else:
+                    new.append([concretize(I, x) for x in a])
             else:
                 new.append(a)
         return I.native(getattr(s, name), *new, **kwargs)
